@@ -228,7 +228,10 @@ func (e *Engine) censusT(sc *Script, cs []*callRun) {
 	for i := 0; i < 60; i++ {
 		n, tops = 0, nil
 		for _, g := range goroutines() {
-			if g.lib && !g.harn {
+			// (a goroutine of net/http -- or of the in-memory transport --
+			// parked on the request-body pipe of a finished stream is held
+			// by the library as well: only the library can close that pipe)
+			if (g.lib || g.pipe) && !g.harn {
 				n++
 				tops = append(tops, g.top)
 			}
@@ -493,6 +496,10 @@ func (e *Engine) RunFree(sc *Script) []Ev {
 		e.rest(sc)
 		e.noteQuiesce(cs)
 		fmt.Fprintf(os.Stderr, "free run %s did not finish\n", sc.ID)
+		if os.Getenv("VERIF_DUMP_STUCK") != "" {
+			buf := make([]byte, 1<<20)
+			os.Stderr.Write(buf[:runtime.Stack(buf, true)])
+		}
 	}
 	e.censusT(sc, cs)
 	for _, c := range cs {
